@@ -1,5 +1,8 @@
 import CV.Proofs.Node
 import CV.Proofs.NodeEvent
+import CV.Proofs.NodeTwoProg
+import CV.Proofs.NodeTwoK
+import CV.Proofs.NodeTwoToy
 /-
 C19 — Node: remote events run once and return their result; peers cannot harm the loop.
 
@@ -214,5 +217,160 @@ example : feedAll demoProc [] [[123], [125, 126], [126, 126, 123, 125], [126, 12
       intro hq; subst hq; simp at h; exact hr h
     simp [demoProc, hq]
   · decide
+
+/-! ## once and back: two protocol instances, two byte streams, arbitrary schedules
+
+The composition (`n2_World`, `n2_step`, `n2_run` in CV/Proofs/NodeTwo.lean) wires the model
+functions `send`, `recv`, `sendResult`, `poll`, `finish` of a caller A and a callee B back to
+back.  A schedule is any list of steps `send | deliverAB n | answer id | deliverBA n | poll id`:
+where the reads cut the two streams, how sends, reads, handler returns and generator polls
+interleave and in which order B's handlers return is arbitrary; only the order of the bytes
+within a stream is fixed.  `n2_Hyp` collects the hypotheses (those of `calls_exactly_once`, for
+both directions): what the JSON oracle says about the packets that occur (`CodecOK`, `Good`,
+`parse (dumps j) = j`), well-formed events, open firewalls, and `returns`: B's handlers return.
+The theorems are `_partial` because of `returns` - without it the statement is false (known
+finding `no-answer(remote-handler-raised)`, `once_and_back_witness`). -/
+
+-- the two-party files restate `decoded` / `WellFormed` under their own names
+example : @n2_decoded = @decoded := rfl
+example : @n2_WellFormed = @WellFormed := rfl
+
+/-- what must hold at *every* moment of a run: (a) B has dispatched an initial part of the calls
+    A made - each once, in send order, with A's ids, nothing else; (b) the answers A accepted
+    are answers to distinct calls that B has dispatched, each carrying the value B's handler
+    returned for the call with *that* id; (c) A's generators yielded only such values, each
+    call at most once; no read handler failed -/
+def Safe (E : n2_Env) (calls : List Ev) (w : n2_World) : Prop :=
+  w.fired <+: (List.range calls.length).map (fun i => (decoded E.excl (n2_callEv calls i), n2_idJ i)) ∧
+  (∃ order : List Nat, order.Nodup ∧ (∀ i ∈ order, i < w.fired.length) ∧
+      w.resolved = order.map (fun i => (i, n2_val E calls i, J.bool false))) ∧
+  (∃ order : List Nat, order.Nodup ∧ (∀ i ∈ order, (i, n2_val E calls i, J.bool false) ∈ w.resolved) ∧
+      w.yielded = order.map (fun i => (i, [n2_val E calls i], n2_errs E calls i))) ∧
+  w.aborted = false
+
+/-- what must hold once nothing is in flight and every handler has returned: every call was
+    dispatched exactly once in send order, every call got exactly its own answer (in whatever
+    order), every entry still registered on A is finished with exactly that one value, both
+    buffers are empty, B registered nothing -/
+def Completed (E : n2_Env) (calls : List Ev) (w : n2_World) : Prop :=
+  w.fired = (List.range calls.length).map (fun i => (decoded E.excl (n2_callEv calls i), n2_idJ i)) ∧
+  w.resolved.Perm ((List.range calls.length).map (fun i => (i, n2_val E calls i, J.bool false))) ∧
+  (∀ p ∈ w.a.pending, p.finished = true ∧ p.id < calls.length ∧
+      p.values = [n2_val E calls p.id] ∧ p.errors = n2_errs E calls p.id) ∧
+  w.a.buf = [] ∧ w.b.buf = [] ∧ w.b.pending = [] ∧ w.aborted = false
+
+/-- **once and back (safety)**: for every list of calls, every behaviour of B's handlers that
+    returns, every schedule - at every moment -/
+theorem once_and_back_safety_partial (E : n2_Env) (calls : List Ev) (H : n2_Hyp E calls)
+    (sched : List n2_Step) : Safe E calls (n2_run E (n2_init calls) sched) :=
+  n2_safety (n2_reach_run H sched ⟨0, 0, 0, [], [], n2_inv_init E calls⟩)
+
+/-- **once and back**: whenever a schedule has brought the world to rest (all calls made, both
+    streams delivered, all handlers returned) -/
+theorem once_and_back_partial (E : n2_Env) (calls : List Ev) (H : n2_Hyp E calls)
+    (sched : List n2_Step) (q : n2_Quiescent (n2_run E (n2_init calls) sched)) :
+    Completed E calls (n2_run E (n2_init calls) sched) :=
+  n2_complete H (n2_reach_run H sched ⟨0, 0, 0, [], [], n2_inv_init E calls⟩) q
+
+/-- **no residue**: … and after each waiting generator has been resumed once more, every call
+    has yielded exactly its own value (and error flag), A has no entry left, and the world is
+    still at rest -/
+theorem once_and_back_no_residue_partial (E : n2_Env) (calls : List Ev) (H : n2_Hyp E calls)
+    (sched : List n2_Step) (q : n2_Quiescent (n2_run E (n2_init calls) sched)) :
+    let w := n2_run E (n2_init calls) (sched ++ (List.range calls.length).map n2_Step.poll)
+    w.a.pending = [] ∧
+      w.yielded.Perm ((List.range calls.length).map (fun i => (i, [n2_val E calls i], n2_errs E calls i))) ∧
+      n2_Quiescent w ∧ Completed E calls w := by
+  intro w
+  have hr := n2_reach_run H sched ⟨0, 0, 0, [], [], n2_inv_init E calls⟩
+  obtain ⟨h1, h2, h3, h4⟩ := n2_complete_polled H hr q
+  have e : w = n2_run E (n2_run E (n2_init calls) sched) ((List.range calls.length).map n2_Step.poll) :=
+    n2_run_append _ _ _ _
+  rw [e]
+  exact ⟨h1, h2, h3, n2_complete H h4 h3⟩
+
+/-- **no deadlock**: every schedule can be continued to rest, so the hypothesis of the two
+    theorems above is satisfiable after every prefix of every run -/
+theorem once_and_back_progress_partial (E : n2_Env) (calls : List Ev) (H : n2_Hyp E calls)
+    (sched : List n2_Step) : ∃ more, n2_Quiescent (n2_run E (n2_init calls) (sched ++ more)) := by
+  obtain ⟨more, h⟩ := n2_progress H (n2_reach_run H sched ⟨0, 0, 0, [], [], n2_inv_init E calls⟩)
+  exact ⟨more, by rw [n2_run_append]; exact h⟩
+
+/-- witness for the excluded case (`no-answer(remote-handler-raised)`): when B's handler raises,
+    its return puts nothing on the stream and changes nothing on A - and only a result packet
+    ends A's wait (`unanswered_waits_witness`) -/
+theorem once_and_back_witness (E : n2_Env) (hraise : ∀ k e, E.beh k e = none) (w : n2_World) (n : Nat) :
+    (n2_step E w (.answer n)).ba = w.ba ∧ (n2_step E w (.answer n)).a = w.a ∧
+      (n2_step E w (.answer n)).ab = w.ab := by
+  simp only [n2_step, n2_takeAnswer]
+  split
+  · exact ⟨rfl, rfl, rfl⟩
+  · rename_i w' r h
+    split at h
+    · cases h
+    · cases h; simp [n2_resultHandler, hraise]
+
+/-! ## k connections on the server side -/
+
+/-- **answers stay on the calling connection**: whatever happens on connection `j` - in
+    particular a handler return, whose `_success` event the `result_handler` of every Protocol
+    of the server sees - leaves every other connection untouched: no byte is appended to
+    another connection's stream -/
+theorem answer_on_calling_connection_only (Es : Nat → n2_Env) (ws : List n2_World) (j j' : Nat)
+    (st : n2_Step) (h : j' ≠ j) : (n2_stepK Es ws (j, st))[j']? = ws[j']? :=
+  n2_stepK_other Es ws j j' st h
+
+/-- **once and back, k connections**: in every interleaving of the steps of k connections
+    (`callss[j]` are the calls client j makes; ids are per connection, so different connections
+    use the same ids) connection j goes through exactly the two-party run of its own steps, hence
+    everything above holds for it: its calls are dispatched once each in order, and its
+    waiting calls get their own answers - never those of a call with the same id on another
+    connection -/
+theorem once_and_back_k_partial (Es : Nat → n2_Env) (callss : List (List Ev))
+    (sched : List (Nat × n2_Step)) (j : Nat) (calls : List Ev) (hj : callss[j]? = some calls)
+    (H : n2_Hyp (Es j) calls) :
+    ∃ w, (n2_runK Es (callss.map n2_init) sched)[j]? = some w ∧
+      w = n2_run (Es j) (n2_init calls) (n2_proj j sched) ∧
+      Safe (Es j) calls w ∧ (n2_Quiescent w → Completed (Es j) calls w) := by
+  refine ⟨_, ?_, rfl, once_and_back_safety_partial (Es j) calls H _,
+    fun q => once_and_back_partial (Es j) calls H _ q⟩
+  rw [n2_runK_proj]
+  simp [hj]
+
+/-! ## non-vacuity of the two-party theorems
+
+`n2_toyEnv` (CV/Proofs/NodeTwoToy.lean): two calls `ping("x~~~y")`, `pong(value=None)`, a handler
+that returns the call number, and a toy JSON in which `{c0} {c1} {v0} {v1}` are the only packets. -/
+
+example : n2_Hyp n2_toyEnv n2_toyCalls := n2_toy_hyp
+
+/-- reads that cut inside packets and inside delimiters, the second call sent while the first
+    is half delivered, answers in reverse order, a poll before the answer arrived -/
+def demoSched : List n2_Step :=
+  [.send, .deliverAB 2, .send, .deliverAB 5, .poll 0, .deliverAB 100, .answer 1, .deliverBA 3,
+   .answer 0, .poll 1, .deliverBA 6, .deliverBA 100, .poll 0, .poll 1]
+
+example : Safe n2_toyEnv n2_toyCalls (n2_run n2_toyEnv (n2_init n2_toyCalls) demoSched) :=
+  once_and_back_safety_partial _ _ n2_toy_hyp _
+
+/-- the hypothesis `n2_Quiescent` is reachable (from every prefix of every schedule), and then
+    everything has come back -/
+example : ∃ more,
+    n2_Quiescent (n2_run n2_toyEnv (n2_init n2_toyCalls) (demoSched ++ more)) ∧
+    Completed n2_toyEnv n2_toyCalls (n2_run n2_toyEnv (n2_init n2_toyCalls) (demoSched ++ more)) := by
+  obtain ⟨more, q⟩ := once_and_back_progress_partial _ _ n2_toy_hyp demoSched
+  exact ⟨more, q, once_and_back_partial _ _ n2_toy_hyp _ q⟩
+
+/-- the hypothesis of the witness: a handler that always raises -/
+example : ∀ k e, ({ n2_toyEnv with beh := fun _ _ => none } : n2_Env).beh k e = none := fun _ _ => rfl
+
+/-- two connections whose clients make the same calls with the same ids -/
+example (sched : List (Nat × n2_Step)) :
+    ∃ w, (n2_runK (fun _ => n2_toyEnv) ([n2_toyCalls, n2_toyCalls].map n2_init) sched)[1]? = some w ∧
+      w = n2_run n2_toyEnv (n2_init n2_toyCalls) (n2_proj 1 sched) ∧
+      Safe n2_toyEnv n2_toyCalls w ∧ (n2_Quiescent w → Completed n2_toyEnv n2_toyCalls w) :=
+  once_and_back_k_partial (fun _ => n2_toyEnv) _ sched 1 n2_toyCalls rfl n2_toy_hyp
+
+example : (1 : Nat) ≠ 0 := by decide
 
 end CV.C19
